@@ -228,6 +228,7 @@ type Exec struct {
 	epoch           int
 	usePow2         bool
 	globLen         map[*ssa.Global]int64
+	globErr         map[*ssa.Global]bool
 	deadline        time.Time
 	noObjSign       bool    // symbolic values created now may denote fresh (negative-id) objects
 	allocFloor      int64   // ... but only those allocated so far: ids >= this value
@@ -254,7 +255,7 @@ func NewExec(prog *Program, db *ContractDB, fn *ssa.Function, c *Contract, cfg s
 		typeIDs: map[string]int64{}, typeByID: map[int64]types.Type{}, loopCache: map[*ssa.Function][]*Loop{},
 		ordCache: map[*ssa.Function]map[ssa.Instruction]string{}, callOrd: map[*ssa.Function]map[ssa.Instruction]callName{},
 		maxPaths: 4096, trusted: map[string]bool{}, havocked: map[string]bool{}, inlined: map[string]bool{}, notes: map[string]bool{},
-		unrollBudget: 300, cfgVals: map[string]int64{}, globalsSeen: map[string]*Term{}, usedLemmas: map[string]bool{}, globLen: map[*ssa.Global]int64{}, useBitAxioms: map[string]bool{}, usedSpecFns: map[string]bool{}, defFacts: map[*Term]bool{}}
+		unrollBudget: 300, cfgVals: map[string]int64{}, globalsSeen: map[string]*Term{}, usedLemmas: map[string]bool{}, globLen: map[*ssa.Global]int64{}, globErr: map[*ssa.Global]bool{}, useBitAxioms: map[string]bool{}, usedSpecFns: map[string]bool{}, defFacts: map[*Term]bool{}}
 	if c != nil && c.Mode == "bits" {
 		x.mode = ModeBits
 	}
